@@ -13,6 +13,8 @@ after1 <hex>
 after2 <hex>
 run
 ```
+A line `fixes <keepUnrun> <oneCorrection> <keepSuffixPreamble> <quoteReset>` (0/1 each) selects which proposed
+repairs the model follows (default: none — the unchanged code).
 Answer: `<id> parse0=… parse1=… upd1=… upd2=… judge=ok|FAIL:<clauses> n0=… n1=… nt=…`.
 -/
 open TsVerif TsVerif.C20
@@ -38,6 +40,7 @@ def hexOf (s : Str) : String :=
   bytes.foldl (fun acc b => acc ++ String.singleton (Nat.toDigits 16 (b.toNat / 16)).head! ++ String.singleton (Nat.toDigits 16 (b.toNat % 16)).head!) ""
 
 structure St where
+  fx : Fixes := {}
   id : String := ""
   os : Str := []
   orig : Str := []
@@ -88,11 +91,11 @@ def runCase (s : St) : String :=
   let m0 := parseFile s.os s.orig
   let p0 := diffEntries m0 e0
   let p1 := diffEntries (parseFile s.os s.after1) e1
-  let u1 := updateFile s.os orc s.orig
+  let u1 := updateFile s.fx s.os orc s.orig
   let c1 := diffStr u1 s.after1
-  let c2 := diffStr (updateFile s.os orc s.after1) s.after2
+  let c2 := diffStr (updateFile s.fx s.os orc s.after1) s.after2
   let sexps := s.acts.foldr (fun (_, _, a) acc => if a.hasError then acc else a.sexpFields :: a.sexpPlain :: acc) []
-  let fails := judge { os := s.os, orig := s.orig, ent0 := e0, wrote1 := s.wrote1, after1 := s.after1,
+  let fails := judge { fx := s.fx, os := s.os, orig := s.orig, ent0 := e0, wrote1 := s.wrote1, after1 := s.after1,
                        ent1 := e1, after2 := s.after2, orc := orc, sexps := sexps }
   let j := if fails.isEmpty then "ok" else "FAIL:" ++ ",".intercalate fails
   -- non-triviality data, measured on the real entries
@@ -101,12 +104,15 @@ def runCase (s : St) : String :=
   let delimLike := (e0.filter fun e =>
       (splitIncl e.input).any fun l => (parseDelimLine l '=').isSome || (parseDelimLine l '-').isSome).length
   let wf := e0.all fun e => e.attrs.cst || sexpLike e.output
+  let quoted := (e0 ++ e1).any fun e => (e.output.filter fun c => c == '\'' || c == '"').length ≥ 4
   let model := if c1 == "ok" then "" else s!" model1={hexOf u1}"
-  s!"{s.id} parse0={p0} parse1={p1} upd1={c1} upd2={c2} judge={j} n0={e0.length} n1={e1.length} attrs={attrs} wrong={wrong} delimlike={delimLike} suffixed={if (firstSuffix (splitIncl s.orig)).isSome then 1 else 0} wrote={if s.wrote1 then 1 else 0} wf={if wf then 1 else 0} crlf={if s.orig.contains '\r' then 1 else 0} bytes={s.orig.length}{model}"
+  s!"{s.id} parse0={p0} parse1={p1} upd1={c1} upd2={c2} judge={j} n0={e0.length} n1={e1.length} attrs={attrs} wrong={wrong} delimlike={delimLike} suffixed={if (firstSuffix (splitIncl s.orig)).isSome then 1 else 0} wrote={if s.wrote1 then 1 else 0} wf={if wf then 1 else 0} quoted={if quoted then 1 else 0} crlf={if s.orig.contains '\r' then 1 else 0} bytes={s.orig.length}{model}"
 
 def step (s : St) (line : String) : IO St := do
   match line.splitOn " " with
-  | ["case", id] => return { id := id }
+  | ["fixes", a, b, c, d] =>
+    return { s with fx := { keepUnrun := a == "1", oneCorrection := b == "1", keepSuffixPreamble := c == "1", quoteReset := d == "1" } }
+  | ["case", id] => return { fx := s.fx, id := id }
   | ["os", h] => return { s with os := unhexStr h }
   | ["orig", h] => return { s with orig := unhexStr h }
   | ["act", l, i, sf, sp, c, he] =>
